@@ -127,11 +127,11 @@ func (c *Ctx) ruleSinglePipeline() {
 	allowed := map[int64]map[string]string{
 		exportV: {
 			"(*pkg/server.BgpServer).filterpath":                    "send",
-			"(*pkg/server.BgpServer).sendSecondaryRoutes$1":         "send",
+			"(*pkg/server.BgpServer).sendSecondaryRoutes":           "send",
 			"(*pkg/server.BgpServer).policyEvaluatedAdjRibOutPaths": "view",
 		},
 		importV: {
-			"(*pkg/server.BgpServer).propagateUpdate$1":           "install",
+			"(*pkg/server.BgpServer).propagateUpdate":             "install",
 			"(*pkg/server.BgpServer).policyAcceptedAdjRibInPaths": "view",
 		},
 	}
@@ -149,7 +149,14 @@ func (c *Ctx) ruleSinglePipeline() {
 			continue
 		}
 		kv, _ := constInt(k.Value)
-		role, ok := allowed[kv][fk]
+		// by enclosing function (closures are numbered by position) or a private helper extracted from it
+		var akeys []string
+		for k := range allowed[kv] {
+			akeys = append(akeys, k)
+		}
+		sort.Strings(akeys)
+		fam := c.familyKey(caller, akeys)
+		role, ok := allowed[kv][fam]
 		dname := "export"
 		if kv == importV {
 			dname = "import"
@@ -240,7 +247,10 @@ func (c *Ctx) ruleReplayPartition() {
 		return
 	}
 	sk := ir.FuncKey(so)
-	clones := staticCallsOf(so, true, "Clone")
+	var clones []*ssa.Call
+	for _, f := range c.withPrivateHelpers(so, 1) {
+		clones = append(clones, staticCallsOf(f, false, "Clone")...)
+	}
 	n := 0
 	for _, cl := range clones {
 		k, ok := cl.Call.Args[len(cl.Call.Args)-1].(*ssa.Const)
